@@ -123,11 +123,13 @@ def check_property(pid, tier, seed, project=None, cache=None, replay=None, quiet
             say('STALE-KNOWN-FINDING: property=%s %s %s:%s no longer matches any instance'
                 % (pid, k['rule'], k['module'], k['function']))
     rdir = os.path.join(VERIF, 'replays', pid)
+    no_ev = bool(os.environ.get('EMSA_NO_EVIDENCE'))
     for f in violations:
-        os.makedirs(rdir, exist_ok=True)
         rp = os.path.join(rdir, f.key_id() + '.json')
-        with open(rp, 'w') as fh:
-            json.dump({'property': pid, **f.to_json()}, fh, indent=1)
+        if not no_ev:
+            os.makedirs(rdir, exist_ok=True)
+            with open(rp, 'w') as fh:
+                json.dump({'property': pid, **f.to_json()}, fh, indent=1)
         say(f.render())
         say('VIOLATION property=%s replay=%s' % (pid, rp))
     for rname, err in errors:
@@ -176,9 +178,10 @@ def check_property(pid, tier, seed, project=None, cache=None, replay=None, quiet
         'property_id': pid, 'tier': tier, 'seed': seed, 'level': 'other', 'coverage': cov,
         'assumptions': assumptions, 'wall_s': round(time.time() - t0, 3), 'violations': len(violations),
     }
-    os.makedirs(os.path.join(VERIF, 'evidence'), exist_ok=True)
-    with open(os.path.join(VERIF, 'evidence', pid + '.json'), 'w') as fh:
-        json.dump(ev, fh, indent=1, default=str)
+    if not no_ev:
+        os.makedirs(os.path.join(VERIF, 'evidence'), exist_ok=True)
+        with open(os.path.join(VERIF, 'evidence', pid + '.json'), 'w') as fh:
+            json.dump(ev, fh, indent=1, default=str)
 
     if not quiet:
         for line in out:
